@@ -66,6 +66,13 @@ MANIFEST = {
             "notions (pyIndex_slice_take_drop, pyIndex_reverse, pyIndex_mask_filter, pyIndex_ints_none_iff, norm_spec ...) and "
             "algebraic laws hold (select_select, touch_idempotent, program_none_iff, select_all_bytes; restOld_unsound). Every constructed extractor is additionally validated per explored "
             "input by a checker proved sound (invB_sound); the shipped record-end rule is refuted (buildOld_unsound). "
+            "SOURCE-LEVEL field text (C04Fields): kline_fields/_lf/_crlf (FASTQ/FASTA field = the source line without its header byte "
+            "and CR), sam_fields/sam_fields_exact/sam_extra_src (the 11 columns and the tab-joined tags without CR), delimited_rest "
+            "(VCF genotype columns), delimited_last_column + delimCR_src (last column on LF/CRLF/MIXED files; the CR switch is the "
+            "first line's), carried through every program incl. the driver's evalTab (passthrough_kline_fields/_crlf, evalTab_lz, "
+            "passthrough_kline_tab). Modified writes are theorems about the Model functions the driver runs (Ext.writeModified / "
+            "writeRowsModified: replace_fields, program_replace, eager_write_rows; delimited, FASTA, FASTQ layouts; plain, rest-of-line "
+            "and tag columns). pyIndex_slice_general: slices with ANY non-zero step (k-th position start+k*step, exactly the k before stop). "
             "Correspondence: real bnp.open/read/index/concatenate/replace/write on generated files of ten formats vs the Lean "
             "model vs the Lean spec vs a Python source-lines oracle.",
     "note": "NumPy indexing and npstructures ragged views are specified externals; GTF is read eagerly by design (not lazy), so its "
